@@ -34,6 +34,9 @@ func (c *newDerefChecker) VisitExpr(expr ast.Expr) {
 	deref := astcast.ToStarExpr(expr)
 	call := astcast.ToCallExpr(deref.X)
 	if astcast.ToIdent(call.Fun).Name == "new" && isBuiltinFunc(c.ctx, call.Fun) {
+		if len(call.Args) != 1 {
+			return // Ill-typed code: new().
+		}
 		typ := c.ctx.TypeOf(call.Args[0])
 		// allow *new(T) if T is a type parameter, see #1272 for details
 		if _, ok := typ.(*types.TypeParam); ok {
